@@ -88,6 +88,48 @@ mod verif_bounded {
         println!("VERIF-BOUNDED-CASES {}", cases);
         assert!(fails == 0, "{} failures", fails);
     }
+
+    /// the ends of the number range: every subset of {0, 1, u64::MAX - 1, u64::MAX} as existing backups.  The next number must exceed every
+    /// existing one and name a path that does not exist; when no such number exists the only acceptable answer is an error (no wrap-around,
+    /// no saturation onto an existing backup, no arithmetic panic)
+    #[test]
+    fn bounded_next_backup_num_extreme() {
+        let universe: [u64; 4] = [0, 1, u64::MAX - 1, u64::MAX];
+        let names: Vec<Vec<u8>> = vec![b"f.txt".to_vec(), b"f\xff".to_vec()];
+        let mut fails = 0;
+        let mut cases = 0;
+        for name in &names {
+            for mask in 0u32..(1u32 << universe.len()) {
+                let dir = tempfile::TempDir::new().unwrap();
+                let base = dir.path().join(PathBuf::from(OsString::from_vec(name.clone())));
+                File::create(&base).unwrap();
+                let mut maxn: Option<u64> = None;
+                for (i, n) in universe.iter().enumerate() {
+                    if mask & (1 << i) != 0 {
+                        let mut c = name.clone();
+                        c.extend_from_slice(format!(".~{}~", n).as_bytes());
+                        File::create(dir.path().join(PathBuf::from(OsString::from_vec(c)))).unwrap();
+                        if maxn.map_or(true, |m| *n > m) { maxn = Some(*n); }
+                    }
+                }
+                cases += 1;
+                let b2 = base.clone();
+                let r = std::panic::catch_unwind(move || (next_backup_num(&b2), get_backup_path(&b2)));
+                let ok = match r {
+                    Err(_) => false,
+                    Ok((Ok(n), Ok(bp))) => maxn.map_or(true, |m| n > m) && !bp.exists(),
+                    Ok((Err(_), Err(_))) => maxn == Some(u64::MAX),
+                    Ok(_) => false,
+                };
+                if !ok {
+                    fails += 1;
+                    if fails <= 5 { report("next_backup_num_extreme", format!("name={:?} existing-mask={:#b} (of 0,1,MAX-1,MAX) max={:?}: panicked, or a number not above every existing one, or an existing path", PathBuf::from(OsString::from_vec(name.clone())), mask, maxn)); }
+                }
+            }
+        }
+        println!("VERIF-BOUNDED-CASES {}", cases);
+        assert!(fails == 0, "{} failures", fails);
+    }
 }
 '''
 
@@ -113,14 +155,14 @@ def backup_bounded():
                            cwd=wd, env=env, stdout=subprocess.PIPE, stderr=subprocess.STDOUT, text=True, timeout=1800)
         out = p.stdout
         fails = re.findall(r'VERIF-BOUNDED-FAIL (.*)', out)
-        m = re.search(r'VERIF-BOUNDED-CASES (\d+)', out)
+        ms = re.findall(r'VERIF-BOUNDED-CASES (\d+)', out)
         ran = re.search(r'test result: (\w+)\. (\d+) passed; (\d+) failed', out)
         res = {
-            'ok': p.returncode == 0 and not fails and ran is not None and ran.group(3) == '0' and ran.group(2) == '2',
+            'ok': p.returncode == 0 and not fails and ran is not None and ran.group(3) == '0' and ran.group(2) == '3',
             'built': ran is not None,
             'failures': fails[:10],
-            'cases': (int(m.group(1)) if m else 0) + 7 * 2010 + 8,
-            'bound': 'is_num_backup: 7 names (incl. non-UTF-8, prefix-like) x N in 1..=2000 plus 10 large N, 8 non-backup names; '
+            'cases': sum(int(x) for x in ms) + 7 * 2010 + 8,
+            'bound': 'is_num_backup: 7 names (incl. non-UTF-8, prefix-like) x N in 1..=2000 plus 10 large N, 8 non-backup names; next number at the ends of the range: 2 names x all subsets of {0, 1, u64::MAX-1, u64::MAX}; '
                      'next_backup_num/has_backup/get_backup_path: 2 names (one non-UTF-8) x all 1024 subsets of existing numbers {1,2,9,10,11,99,100,101,205,1000}',
             'wall_s': round(time.time() - t0, 1),
             'tail': '' if ran is not None else out[-1500:],
